@@ -7,6 +7,7 @@ MC_RetQuick == {TInt, TBool, TOpt(TInt), TP, TE, TS}
 MC_RetAll   == AllTypes
 MC_RetInt   == {TInt}
 MC_RetIntBool == {TInt, TBool}
+MC_RetQuirks == MC_RetQuick \cup {TStruct("Wb"), TStruct("Wt"), TStruct("Wp"), TStruct("Wr")}
 MC_RetOptInt == {TOpt(TInt)}
 MC_RetP == {TP}
 MC_RetOps == {TBool}
@@ -37,7 +38,9 @@ Concretize(t) == CASE t = TNever -> TInt
                    [] t[1] = "res" -> TRes(Concretize(t[2]), Concretize(t[3]))
                    [] OTHER -> t
 AnyRetTypes(e) == LET t0 == TypeOf(e, Ctx0, TNever) IN
-                  IF t0 = TErr THEN {TInt, TBool} ELSE {Concretize(t0)}
+                  IF t0 = TErr
+                  THEN (IF e[1] \in {"substruct", "cast"} THEN {TStruct(e[2])} ELSE {TInt, TBool})
+                  ELSE {Concretize(t0)}
 AnySmallAtoms == {Lit(I(0)), Lit(MAXI), Lit(VT), Lit(VStr("ab")), Lit(VEnum("Color", "Red")), Lit(VNone),
                   Var("x"), Var("p"), Var("s"), Var("c"), Var("o"), Var("r"), Var("u"), Var("w"), Var("k"), Var("g")}
 AnyInit ==
